@@ -124,6 +124,17 @@ func valueVia(v ssa.Value) (ssa.Value, func()) {
 		if !ok || idx >= len(ret.Results) {
 			continue
 		}
+		if k, isK := ret.Results[idx].(*ssa.Const); isK && k.IsNil() && len(ret.Results) > 1 {
+			continue // `return nil, err`
+		}
+		if last := ret.Results[len(ret.Results)-1]; len(ret.Results) > 1 && idx != len(ret.Results)-1 && last.Type().String() == "error" {
+			if k, isK := last.(*ssa.Const); !isK || !k.IsNil() {
+				continue // `return zero, err`: the value is not used by a caller that checks err
+			}
+		}
+		if res != nil && res == ret.Results[idx] {
+			continue
+		}
 		n++
 		res = ret.Results[idx]
 	}
@@ -131,6 +142,23 @@ func valueVia(v ssa.Value) (ssa.Value, func()) {
 		return v, nop
 	}
 	return res, ir.BindParams(h, cl.Common().Args)
+}
+
+// callIn: the call instruction of fn that invokes the function containing `in`
+// (nil when `in` is in fn itself or fn does not call that function directly).
+func callIn(fn *ssa.Function, in ssa.Instruction) *ssa.Call {
+	h := in.Parent()
+	if h == nil || h == fn {
+		return nil
+	}
+	for _, b := range fn.Blocks {
+		for _, i2 := range b.Instrs {
+			if cl, ok := i2.(*ssa.Call); ok && cl.Common().StaticCallee() == h {
+				return cl
+			}
+		}
+	}
+	return nil
 }
 
 // hostsWithHelpers returns fn and the small module helpers fn calls directly,
